@@ -51,6 +51,8 @@ def gen_worlds(seed, n):
         if len(ws) >= n - n_plan:
             w = simgen.gen_planner_world(rng, plan[k % len(plan)])
             k += 1
+        elif len(ws) % 4 == 3:
+            w = simgen.gen_fuzz_world(rng)
         else:
             w = simgen.gen_world(rng, closed_loop=rng.random() < 0.1)
         if "zero_runtime" in simgen.signature(w):
